@@ -31,6 +31,7 @@ as a log on top of the hook model `Uft.Mcount` (which is not changed).
 Core-only imports (linked into uvmodel).
 -/
 import Uft.Model.CallTree
+import Uft.Gen.ScriptArgs
 namespace Uft.Script
 
 /-! ## Part 1: `uftrace script` -/
@@ -531,4 +532,73 @@ def hpRun : List HCtx → List HookEv → Option (List HCtx)
     | none => none
 
 end Hook
+/-! ## Part 3: the argument / return-value buffer as the writer lays it out and the three
+    readers walk it (libmcount/record.c save_to_argbuf; cmds/replay.c get_argspec_string;
+    utils/script-python.c and utils/script-luajit.c setup_argument_context).  The sizes and
+    advances are the generated functions of `Uft.Gen.ScriptArgs` (translated from the C
+    expressions on every run).  Bytes are natural numbers; values are the stored bytes. -/
+namespace Args
+open Uft.Gen.ScriptArgs
+
+/-- struct uftrace_arg_spec: format and `size` -/
+structure ASpec where
+  fmt : Fmt
+  size : Nat
+deriving DecidableEq, Repr, Inhabited
+
+/-- a value as stored: the `size` bytes of a scalar / struct, or the characters of a string -/
+inductive AVal where
+  | fixed (bytes : List Nat)
+  | str (chars : List Nat)
+deriving DecidableEq, Repr, Inhabited
+
+def isStr (f : Fmt) : Bool := f == .str || f == .stdstr
+
+/-- number of bytes read for a scalar: one for a char (`memcpy(…, data, 1)`), `spec->size` otherwise -/
+def readLen (sp : ASpec) : Nat := if sp.fmt == .chr then 1 else sp.size
+
+def padTo (n : Nat) (l : List Nat) : List Nat := l ++ List.replicate (n - l.length) 0
+
+/-- save_to_argbuf for one value: the value (a string with its 2-byte length in front), zero
+    padded to the size the writer advances by -/
+def encOne (sp : ASpec) : AVal → List Nat
+  | .str s => padTo (wrSize sp.fmt sp.size s.length) (s.length % 256 :: s.length / 256 :: s)
+  | .fixed b => padTo (wrSize sp.fmt sp.size 0) b
+
+def encode : List (ASpec × AVal) → List Nat
+  | [] => []
+  | (sp, v) :: rest => encOne sp v ++ encode rest
+
+/-- one step of a reader whose advance function is `adv`: the value found at `data` and the rest;
+    `none`: the reader has no case for the format -/
+def decOne (adv : Fmt → Nat → Nat → Option Nat) (sp : ASpec) (data : List Nat) : Option (AVal × List Nat) :=
+  if isStr sp.fmt then
+    match adv sp.fmt sp.size (data.getD 0 0 + 256 * data.getD 1 0) with
+    | some a => some (.str ((data.drop 2).take (data.getD 0 0 + 256 * data.getD 1 0)), data.drop a)
+    | none => none
+  else
+    match adv sp.fmt sp.size 0 with
+    | some a => some (.fixed (data.take (readLen sp)), data.drop a)
+    | none => none
+
+/-- the loop over the spec list; a format without a case contributes no value and no advance
+    (`default: pr_warn("invalid argument format")`) -/
+def decode (adv : Fmt → Nat → Nat → Option Nat) : List ASpec → List Nat → List AVal
+  | [], _ => []
+  | sp :: rest, data =>
+    match decOne adv sp data with
+    | some (v, d) => v :: decode adv rest d
+    | none => decode adv rest data
+
+/-- a value fits its spec: a string for /s and /S; `size` bytes otherwise, and a char spec has size 1
+    (parse_argspec: `size = sizeof(char)`) -/
+def fits (sp : ASpec) : AVal → Prop
+  | .str _ => isStr sp.fmt = true
+  | .fixed b => isStr sp.fmt = false ∧ b.length = sp.size ∧ (sp.fmt = .chr → sp.size = 1)
+
+/-- the reader has a case for the format -/
+def handles (adv : Fmt → Nat → Nat → Option Nat) (f : Fmt) : Bool := (adv f 0 0).isSome
+
+end Args
+
 end Uft.Script
